@@ -37,3 +37,36 @@ def run_generators(rep: Report, names: List[str]) -> None:
     rep.assume(*LIST_ASSUMPTIONS)
     rep.trust("z3 4.x/5.1 (SMT solver)", "pyvc symbolic executor (own code; cross-checked against CPython on every run)",
               "jnp.einsum computes the contraction its label pattern denotes")
+
+
+def run_scope(rep: Report, files: List[str]) -> None:
+    """Definedness obligations (kind 8) for every function of the given repository files."""
+    import ast
+    from vf.common import Obligation
+    from vf.pyvc import scope
+    for rel in files:
+        p = common.REPO / rel
+        try:
+            src = p.read_text()
+            tree = ast.parse(src)
+        except (OSError, SyntaxError) as ex:
+            rep.undecided.append(f"{rel}: cannot parse ({ex})")
+            continue
+        for q, fn, enc in scope.all_functions(tree):
+            bad = scope.undefined_names(tree, fn, enc)
+            oid = f"{rel}::{q}::scope:names-defined-at-run-time"
+            rep.add_ob(Obligation(oid, f"{rel}::{q}", "scope", "scope", "failed" if bad else "discharged",
+                                  detail="; ".join(f"{n} (line {ln})" for n, ln in bad)))
+            if bad:
+                rep.violation(f"{rel}::{q} loads name(s) that do not exist at run time: " + ", ".join(f"{n} at line {ln}" for n, ln in bad)
+                              + " (bound only under TYPE_CHECKING or not at all) -> NameError on that path",
+                              key=f"P:{rel}::{q}:scope:" + ",".join(sorted({n for n, _ in bad})),
+                              replay={"kind": "scope", "path": rel, "function": q, "names": [list(b) for b in bad],
+                                      "failed_obligations": [oid]}, no_input=True)
+    rep.assume("definedness: names are resolved statically (no exec/globals() tricks, no monkey patching of module globals at run time)")
+
+
+def oracle_self_check(rep: Report) -> None:
+    from vf.rtc import spec
+    for e in spec.self_check():
+        rep.broken.append("oracle self-check: " + e)
